@@ -161,7 +161,7 @@ func (r *Recorder) NontrivialCase(fp uint64, sample func() any) {
 	n := len(r.fps)
 	// keep the 1st, 2nd, 4th, 8th ... distinct non-trivial case so samples are spread over the run
 	if len(r.Samples) < r.maxSamples && n&(n-1) == 0 && sample != nil {
-		r.Samples = append(r.Samples, sample())
+		r.Samples = append(r.Samples, boundSample(sample()))
 	}
 }
 
@@ -408,4 +408,16 @@ func SaveCurrent[C any](r *Recorder, c C) {
 	}
 	b, _ := json.Marshal(Envelope{Property: r.Property, Test: r.Test, Error: "the process ended while this case was running", Case: raw})
 	os.WriteFile(filepath.Join(dir, r.Property+"-current-"+os.Getenv("VERIF_RUN_TEST")+"-"+os.Getenv("VERIF_RUN_TAG")+".json"), b, 0o644)
+}
+
+// maxSampleBytes bounds the JSON size of one sample in the evidence file; larger cases are represented by their size and the
+// beginning of their JSON form (the evidence file is a record of what was covered, not an archive of inputs).
+const maxSampleBytes = 12000
+
+func boundSample(v any) any {
+	b, err := json.Marshal(v)
+	if err != nil || len(b) <= maxSampleBytes {
+		return v
+	}
+	return map[string]any{"sample_too_large_to_list": true, "json_bytes": len(b), "json_prefix": string(b[:1500])}
 }
